@@ -20,6 +20,7 @@ package file
 //@ crashinv [C10] I01(cp(s))
 //@ at call Run#0: assert [C10,invalidated-before-run] diskOK(cp(s)) ==> diskGet(cp(s), taskToRun.Name) == ""
 //@ ensures [I01] I01(cp(s))
+//@ ensures [shape-err] result1 != nil ==> len(result0) == 0
 //@ ensures [shape] result1 == nil ==> len(result0) == len(runOrder) && forall i int :: {result0[i]} 0 <= i && i < len(result0) ==> result0[i].Task == runOrder[i].Name
 //@ ensures [C01] result1 == nil ==> forall i int :: {result0[i]} 0 <= i && i < len(result0) && result0[i].Skipped ==> last[runOrder[i].Name] != "" && last[runOrder[i].Name] == cur(mapval(s.Globs), runOrder[i])
 //@ ensures [C14] result1 == nil && force ==> forall i int :: {result0[i]} 0 <= i && i < len(result0) ==> !result0[i].Skipped
@@ -88,6 +89,7 @@ package file
 //@ at return buildGraph#0: ghost lastGraph = dag
 //@ at call run#0: ghost runPhase = 1
 //@ ensures [I01] I01(cp(s))
+//@ ensures [shape-err] result1 != nil ==> len(result0) == 0
 //@ ensures [C03,errors-run-nothing] runPhase == 0 ==> ranCount == old(ranCount) && last == old(last)
 //@ ensures [C03,phase] result1 == nil ==> runPhase == 1
 //@ ensures [C03,requested] result1 == nil ==> forall k int :: {tasks[k]} 0 <= k && k < len(tasks) ==> 0 <= sortPos(lastGraph, tasks[k]) && sortPos(lastGraph, tasks[k]) < len(result0) && result0[sortPos(lastGraph, tasks[k])].Task == tasks[k]
